@@ -151,6 +151,67 @@ def _p_loops(fi, psyms):
     return out
 
 
+def _is_range_p(it, psyms):
+    return isinstance(it, ast.Call) and isinstance(it.func, ast.Name) and it.func.id == 'range' and len(it.args) == 1 \
+        and isinstance(it.args[0], ast.Name) and it.args[0].id in psyms
+
+
+def _per_direction_sequences(fi, psyms):
+    """names of Python lists that hold one entry per direction, in direction order: `[f(p) for p in range(P)]`, or a list
+    that starts empty and is appended to exactly once in every iteration of a full loop over directions"""
+    out = set()
+    empties = {}
+    for st in walk_no_nested(fi.node):
+        if isinstance(st, ast.Assign) and len(st.targets) == 1 and isinstance(st.targets[0], ast.Name):
+            v = st.value
+            if isinstance(v, ast.ListComp) and len(v.generators) == 1 and not v.generators[0].ifs and _is_range_p(v.generators[0].iter, psyms):
+                out.add(st.targets[0].id)
+            if isinstance(v, ast.List) and not v.elts:
+                empties[st.targets[0].id] = st
+    for lp, var, full in _p_loops(fi, psyms):
+        if not full:
+            continue
+        for nm in list(empties):
+            apps = [b for b in lp.body if isinstance(b, ast.Expr) and isinstance(b.value, ast.Call) and isinstance(b.value.func, ast.Attribute)
+                    and b.value.func.attr == 'append' and isinstance(b.value.func.value, ast.Name) and b.value.func.value.id == nm]
+            others = [c for c in walk_no_nested(fi.node) if isinstance(c, ast.Call) and isinstance(c.func, ast.Attribute) and c.func.attr in ('append', 'insert', 'extend', 'pop')
+                      and isinstance(c.func.value, ast.Name) and c.func.value.id == nm]
+            if len(apps) == 1 and len(others) == 1:
+                out.add(nm)
+    return out
+
+
+def _p_scopes(fi, psyms):
+    """further places where a name is bound to a direction index: comprehension generators over range(P) and loops that
+    enumerate a per-direction sequence -> [(scope node, variable)]"""
+    per = _per_direction_sequences(fi, psyms)
+    out = []
+
+    def idx_of(target, it):
+        if _is_range_p(it, psyms) and isinstance(target, ast.Name):
+            return target.id
+        if isinstance(it, ast.Call) and isinstance(it.func, ast.Name) and it.func.id == 'enumerate' and len(it.args) == 1 \
+                and isinstance(it.args[0], ast.Name) and it.args[0].id in per and isinstance(target, ast.Tuple) and target.elts \
+                and isinstance(target.elts[0], ast.Name):
+            return target.elts[0].id
+        if isinstance(it, ast.Call) and isinstance(it.func, ast.Name) and it.func.id == 'zip' and it.args and _is_range_p(it.args[0], psyms) \
+                and all(isinstance(a, ast.Name) and a.id in per for a in it.args[1:]) and isinstance(target, ast.Tuple) and target.elts \
+                and isinstance(target.elts[0], ast.Name):
+            return target.elts[0].id
+        return None
+    for n in walk_no_nested(fi.node):
+        if isinstance(n, (ast.ListComp, ast.GeneratorExp, ast.SetComp, ast.DictComp)):
+            for g in n.generators:
+                v = idx_of(g.target, g.iter)
+                if v:
+                    out.append((n, v))
+        elif isinstance(n, ast.For) and not _is_range_p(n.iter, psyms):
+            v = idx_of(n.target, n.iter)
+            if v:
+                out.append((n, v))
+    return out
+
+
 def _axis1(sub):
     sl = sub.slice
     if isinstance(sl, ast.Tuple):
@@ -208,6 +269,10 @@ def rule_paxis(ctx):
             else:
                 r.ok(construct=_f(fi) + ':loop@%d' % lp.lineno)
             for n in ast.walk(lp):
+                if isinstance(n, ast.Subscript):
+                    in_loop.setdefault(id(n), []).append(var)
+        for scope, var in _p_scopes(fi, psyms):
+            for n in ast.walk(scope):
                 if isinstance(n, ast.Subscript):
                     in_loop.setdefault(id(n), []).append(var)
         for n in walk_no_nested(fi.node):
